@@ -14,7 +14,7 @@ use rayon::ThreadPool;
 use uuid::Uuid;
 
 use crate::bucket::BucketSegmentId;
-use crate::bucket::segment::{BucketSegmentReader, EventRecord, Record};
+use crate::bucket::segment::{BucketSegmentReader, EventRecord};
 use crate::bucket::stream_index::closed::{ClosedIndex, ClosedStreamIndex};
 use crate::bucket::stream_index::{
     LEN_SIZE, OFFSET_SIZE, PARTITION_KEY_SIZE, RECORD_SIZE, StreamIndexRecord, VERSION_SIZE,
@@ -174,19 +174,19 @@ impl OpenStreamIndex {
 
     /// Hydrates the index from a reader.
     pub fn hydrate(&mut self, reader: &mut BucketSegmentReader) -> Result<(), StreamIndexError> {
+        // Only committed events are indexed: after a crash the segment can end in events whose
+        // commit record was never written
         let mut reader_iter = reader.iter();
-        while let Some(record) = reader_iter.next_record()? {
-            match record {
-                Record::Event(EventRecord {
-                    offset,
-                    partition_key,
-                    stream_id,
-                    stream_version,
-                    ..
-                }) => {
-                    self.insert(stream_id, partition_key, stream_version, offset)?;
-                }
-                Record::Commit(_) => {}
+        while let Some(committed) = reader_iter.next_committed_events()? {
+            for EventRecord {
+                offset,
+                partition_key,
+                stream_id,
+                stream_version,
+                ..
+            } in committed
+            {
+                self.insert(stream_id, partition_key, stream_version, offset)?;
             }
         }
 
